@@ -415,6 +415,13 @@ func (api *engineAPI) NewPayloadV4(data engine.ExecutableData, hashes []common.H
 		time.Sleep(d)
 		return engine.PayloadStatusV1{}, errors.New("elsim: stalled")
 	}
+	// like goat-geth (ExecutableDataToBlock runs first): a payload whose claimed hash is not the
+	// hash of its content is INVALID, also when a block with the claimed hash is already known
+	if ComputeBlockHash(&data, beacon, reqs) != data.BlockHash {
+		msg := "blockhash mismatch"
+		finish("INVALID(" + msg + ")")
+		return engine.PayloadStatusV1{Status: engine.INVALID, ValidationError: &msg}, nil
+	}
 	if _, ok := el.blocks[data.BlockHash]; ok {
 		finish("VALID(known)")
 		h := data.BlockHash
